@@ -297,6 +297,15 @@ def run_c07(prop, cfg, tier, seed):
         nviol += 1
         p = core.write_replay(prop, "lean_obligation", {"property": prop, "kind": "proof-obligation", "module": cfg["module"], "problems": audit["problems"]})
         printed.append("VIOLATION property=%s replay=%s no-failing-input-found" % (prop, p))
+    # regenerated obligations (translator tie): the repository's own grammars, kernel-checked on every run
+    from . import gram_check
+    gviol, gram_cov = gram_check.for_property(prop)
+    for kind, obj, failing in gviol:
+        nviol += 1
+        obj.update({"property": prop, "kind": kind, "property_fails_on_impl": [obj["why"]] if failing else [],
+                    "broken_obligation": None if failing else "regenerated Lean module of a repository grammar (pv/gram_check.py)"})
+        pth = core.write_replay(prop, kind.replace("/", "_") + "_" + hashlib.md5(obj["why"].encode()).hexdigest()[:10], obj)
+        printed.append("VIOLATION property=%s replay=%s%s" % (prop, pth, "" if failing else " no-failing-input-found"))
     for d in viol:
         report("oracle", *d)
     for d in disagree:
@@ -333,6 +342,7 @@ def run_c07(prop, cfg, tier, seed):
            "verdicts": verdicts, "known_finding_hits": known, "observations": obs,
            "samples": [{"case": c, "impl": i} for c, i in list(zip(cases, impl))[:3]],
            "explanation": "the real analysis is compared with the Lean model node by node, and its verdict with an independent static specification; discrepancies are classified by which (uncommitted) repair of the model removes them"}
+    cov.update(gram_cov)
     core.write_evidence(prop, tier, seed, cfg.get("level", "other"), cov,
                         ["the general equivalence detect = specification is not proved; it is false for the unchanged tree (D17, D9, D18)"], wall, nviol)
     for l in kf + printed:
